@@ -52,6 +52,9 @@ fn srv_scenario(cfg: &Cfg, rng: &mut Rng, case: &str) {
     if rng.chance(1, 4) {
         script.fail = vec!["*"];
     }
+    // files the handler hands to the library by value (device-state channel, inflight buffer, shared
+    // object) are the library's to close once they were sent
+    script.dev_state = if rng.chance(1, 2) { crate::rec::DevStateOut::WithFile } else { crate::rec::DevStateOut::NoFile };
     let stop_after = rng.range(0, 8);
     let desc;
     let mut delivered = 0usize;
